@@ -293,7 +293,7 @@ def r6(ctx: Ctx) -> None:
         rem = [e for e in calls(p) if calls_target(e, "OrderBook._remove") and key(strip_ver(kw(e, "order", 0) or NONE)) == "cancel.order"]
         if len(resting) != 1:
             # the scan form: for o in queue: if o == cancel.order: _remove(cancel.order); break
-            scans = [l for l in loops(p) if key(strip_ver(l.iter)) == "self.priority_queue"]
+            scans = [l for l in loops(p) if l.iter is not None and key(strip_ver(l.iter)) == "self.priority_queue"]
             if len(scans) == 1:
                 l = scans[0]
                 el = ("sym", f"{l.target[0]}∈{l.loopid}")
